@@ -4,6 +4,7 @@ import numpy as np
 
 from toqito.channel_ops import kraus_to_choi
 from toqito.channel_props import is_completely_positive, is_trace_preserving
+from toqito.helper import channel_dim
 
 
 def is_quantum_channel(
@@ -72,9 +73,14 @@ def is_quantum_channel(
     """
     # If the variable `phi` is provided as a list, we assume this is a list
     # of Kraus operators.
+    dim = None
     if isinstance(phi, list):
+        # The Kraus operators know the input and output dimensions; the Choi matrix alone does not.
+        dim_in, dim_out, _ = channel_dim(phi, compute_env_dim=False)
+        if dim_in[0] == dim_in[1] and dim_out[0] == dim_out[1]:
+            dim = [int(dim_in[0]), int(dim_out[0])]
         phi = kraus_to_choi(phi)
 
     # A valid quantum channel is a superoperator that is both completely
     # positive and trace-preserving.
-    return is_completely_positive(phi, rtol, atol) and is_trace_preserving(phi, rtol, atol)
+    return is_completely_positive(phi, rtol, atol) and is_trace_preserving(phi, rtol, atol, dim=dim)
